@@ -10,10 +10,14 @@ use crate::report::*;
 use crate::types::*;
 
 pub fn check<I: Inputs>(vt: &'static Vt<I>, ctx: &Ctx) -> DeclReport {
+    if vt.tags.iter().any(|t| t.starts_with("c02:must-reject")) {
+        // a unit that should not have compiled: the driver reports its acceptance; its model is a dummy
+        return DeclReport::irrelevant(vt.id);
+    }
     let mut rep = DeclReport::new(vt.id);
     let info = DeclInfo::of(vt);
     let m = vt.model;
-    let class: &'static str = vt.tags.iter().find(|t| t.starts_with("c02:spelling:") || t.starts_with("c02:layout:")).copied().unwrap_or("c02:other");
+    let class: &'static str = vt.tags.iter().find(|t| t.starts_with("c02:spelling:") || t.starts_with("c02:layout:") || t.starts_with("c02:sanitizer-order:")).copied().unwrap_or("c02:other");
     let noncanonical = class != "c02:spelling:lit";
     let eval = |raw: &I| -> Outcome {
         let mut o = compare_ctor("C02", class, vt, vt.ctor, raw, false);
